@@ -162,6 +162,23 @@ def recheck_props(prop_file):
             "print_assumptions": "Closed under the global context" if not axioms else "Axioms: " + ", ".join(sorted(set(axioms)))}
 
 
+def coqchk_props(prop_file):
+    """Thorough tier: re-check the compiled property file and everything it depends on with Coq's
+    independent checker; its context summary must list no axiom (nor type-in-type, unsafe fixpoints,
+    assumed positivity)."""
+    rc, out = sh(["timeout", "1500", "coqchk", "-o", "-silent"] + COQ_Q[:-2] + ["RxProps." + prop_file], cwd=COQ)
+    if rc != 0:
+        raise CheckFailure("coqchk", out[-4000:])
+    summary = out[out.find("CONTEXT SUMMARY"):]
+    facts = dict(re.findall(r"\* ([^:\n]+):\s*(.*)", summary))
+    bad = {k: v for k, v in facts.items() if k != "Theory" and v.strip() != "<none>"}
+    ax = [a for a in re.findall(r"^\s+(\S+)\s*$", summary[summary.find("* Axioms"):summary.find("* Constants")], re.M)]
+    bad_ax = [a for a in ax if a.split(".")[-1] not in AXIOM_ALLOW and a not in AXIOM_ALLOW]
+    if bad_ax or any(k != "Axioms" for k in bad):
+        raise CheckFailure("coqchk-context", summary[-3000:])
+    return "coqchk -o: " + "; ".join("%s: %s" % (k.strip(), v.strip()) for k, v in facts.items() if k != "Theory")
+
+
 def build_runner():
     """Extract the model and build the OCaml runner when any Model/Spec .vo is newer."""
     # everything Extract.v imports must be compiled consistently first
@@ -374,6 +391,8 @@ def proof_stage(report, prop_file):
         grep_gate()
         coq_make(["Props/%s.vo" % prop_file])
         info = recheck_props(prop_file)
+        if report.tier == "thorough":
+            info["coqchk"] = coqchk_props(prop_file)
     except CheckFailure as e:
         report.violations.append(("proof obligation no longer checks: " + e.what,
                                   {"obligation": e.what, "detail": e.detail, "failing_input_found": False}))
@@ -382,7 +401,7 @@ def proof_stage(report, prop_file):
     c["obligations"] = info["obligations"]
     c["discharged"] = info["discharged"]
     c["checker_cmd"] = "make -C coq Props/%s.vo && coqc Props/%s.v (Print Assumptions parsed)" % (prop_file, prop_file)
-    c["trusted_base"] = TRUSTED_BASE + ["Print Assumptions: " + info["print_assumptions"]]
+    c["trusted_base"] = TRUSTED_BASE + ["Print Assumptions: " + info["print_assumptions"]] + ([info["coqchk"]] if info.get("coqchk") else [])
     c["theorems"] = info["theorems"]
     c["examples"] = info["examples"]
     return info
